@@ -3,6 +3,7 @@ package c20
 import (
 	"bufio"
 	"bytes"
+	"encoding/json"
 	"errors"
 	"fmt"
 	"math"
@@ -21,6 +22,7 @@ import (
 	"unicode/utf8"
 
 	"github.com/google/martian/v3/body"
+	"github.com/google/martian/v3/parse"
 	"github.com/google/martian/v3/proxyutil"
 	"github.com/google/martian/v3/static"
 	"pgregory.net/rapid"
@@ -132,9 +134,79 @@ func readLimit(content int, h string) int64 {
 	return k*(int64(content)+600+192<<10) + 256<<10
 }
 
+// responseModifier is what both modifiers are to the proxy.
+type responseModifier interface {
+	ModifyResponse(*http.Response) error
+}
+
+// newBodyModifier builds a body.Modifier directly, or through the documented
+// configuration path: parse.FromJSON of {"body.Modifier": {scope, contentType,
+// body (base64)}}.
+func newBodyModifier(content []byte, viaJSON bool) (responseModifier, error) {
+	if !viaJSON {
+		return body.NewModifier(content, "application/octet-stream"), nil
+	}
+	cfg, err := json.Marshal(map[string]interface{}{"body.Modifier": map[string]interface{}{
+		"scope": []string{"response"}, "contentType": "application/octet-stream", "body": content,
+	}})
+	if err != nil {
+		return nil, err
+	}
+	r, err := parse.FromJSON(cfg)
+	if err != nil {
+		return nil, err
+	}
+	if r.ResponseModifier() == nil {
+		return nil, fmt.Errorf("parse.FromJSON gave no response modifier")
+	}
+	return r.ResponseModifier(), nil
+}
+
+// newStaticModifier builds a static.Modifier directly or through
+// parse.FromJSON of {"static.Modifier": {scope, rootPath, explicitPaths}}.
+func newStaticModifier(root string, explicit map[string]string, viaJSON bool) (responseModifier, error) {
+	if !viaJSON {
+		mod := static.NewModifier(root)
+		if explicit != nil {
+			mod.SetExplicitPathMappings(explicit)
+		}
+		return mod, nil
+	}
+	m := map[string]interface{}{"scope": []string{"request", "response"}, "rootPath": root}
+	if explicit != nil {
+		m["explicitPaths"] = explicit
+	}
+	cfg, err := json.Marshal(map[string]interface{}{"static.Modifier": m})
+	if err != nil {
+		return nil, err
+	}
+	r, err := parse.FromJSON(cfg)
+	if err != nil {
+		return nil, err
+	}
+	if r.ResponseModifier() == nil {
+		return nil, fmt.Errorf("parse.FromJSON gave no response modifier")
+	}
+	return r.ResponseModifier(), nil
+}
+
+func whoLabel(who string, viaJSON bool) string {
+	if viaJSON {
+		return who + "-json"
+	}
+	return who
+}
+
+func configRejected(who string, err error) obs {
+	return obs{Panic: "", Err: err, Status: -1}
+}
+
 // runBodyModifier answers a request with body.Modifier the way the proxy
 // does: the upstream response is handed to ModifyResponse.
-func runBodyModifier(content []byte, h string, slack int) obs {
+func runBodyModifier(content []byte, h string, slack int, viaJSON bool) obs {
+	if viaJSON {
+		slack = 0
+	}
 	if slack > 0 {
 		// the same content in a slice with spare capacity behind it (as a decoder
 		// or an append would leave it); the spare bytes are not content
@@ -155,7 +227,10 @@ func runBodyModifier(content []byte, h string, slack int) obs {
 		ContentLength: int64(3 * len(upstreamMarker)),
 		Request:       req,
 	}
-	mod := body.NewModifier(content, "application/octet-stream")
+	mod, err := newBodyModifier(content, viaJSON)
+	if err != nil {
+		return configRejected("body", err)
+	}
 	return observe(res, mod.ModifyResponse, readLimit(len(content), h))
 }
 
@@ -179,7 +254,7 @@ func outOfDescriptors(err error) bool {
 
 // runStaticModifier answers a request for /case.bin (holding content) with
 // static.Modifier the way the proxy does when the round trip is skipped.
-func runStaticModifier(ft *fileTree, content []byte, h string) (obs, error) {
+func runStaticModifier(ft *fileTree, content []byte, h string, viaJSON bool) (obs, error) {
 	if staticRuns++; staticRuns%256 == 0 {
 		runtime.GC()
 	}
@@ -189,7 +264,10 @@ func runStaticModifier(ft *fileTree, content []byte, h string) (obs, error) {
 		if err == nil {
 			req := newRequest("http://example.com/case.bin", h)
 			res := proxyutil.NewResponse(200, nil, req)
-			mod := static.NewModifier(ft.root)
+			mod, merr := newStaticModifier(ft.root, nil, viaJSON)
+			if merr != nil {
+				return configRejected("static", merr), nil
+			}
 			o = observe(res, mod.ModifyResponse, readLimit(len(content), h))
 			err = o.Err
 		}
@@ -246,7 +324,7 @@ var (
 func staticAllocatesFromHeader(ft *fileTree) bool {
 	probeOnce.Do(func() {
 		for _, h := range []string{"bytes=0-1048575", "bytes=0-1,2-1048575"} {
-			o, err := runStaticModifier(ft, []byte("0123456789"), h)
+			o, err := runStaticModifier(ft, []byte("0123456789"), h, false)
 			if err != nil || o.Panic != "" || len(o.Body) > 4096 || strings.Contains(o.Header.Get("Content-Range"), "1048575") {
 				staticSizes = true
 			}
@@ -269,6 +347,9 @@ type RangeCase struct {
 	Seed  uint64 `json:"seed"`
 	Range string `json:"range"`
 	Slack int    `json:"slack,omitempty"`
+	// ViaJSON: the modifier is built by parse.FromJSON from its documented
+	// JSON configuration instead of its Go constructor.
+	ViaJSON bool `json:"via_json,omitempty"`
 }
 
 func runRange(c RangeCase) kit.Verdict {
@@ -278,7 +359,7 @@ func runRange(c RangeCase) kit.Verdict {
 	content := kit.Bytes(c.Seed, c.Len)
 	switch c.Who {
 	case "body":
-		return judge("body", content, c.Range, runBodyModifier(content, c.Range, c.Slack))
+		return judge(whoLabel("body", c.ViaJSON), content, c.Range, runBodyModifier(content, c.Range, c.Slack, c.ViaJSON))
 	case "static":
 		treeMu.Lock()
 		ft := tree
@@ -287,13 +368,13 @@ func runRange(c RangeCase) kit.Verdict {
 			return kit.Failf("C20/harness/no-tree", "static case without a file tree")
 		}
 		if staticAllocatesFromHeader(ft) && allocBand(c.Range, c.Len) {
-			return judge("body", content, c.Range, runBodyModifier(content, c.Range, 0))
+			return judge(whoLabel("body", c.ViaJSON), content, c.Range, runBodyModifier(content, c.Range, 0, c.ViaJSON))
 		}
-		o, err := runStaticModifier(ft, content, c.Range)
+		o, err := runStaticModifier(ft, content, c.Range, c.ViaJSON)
 		if err != nil {
 			return kit.Failf("C20/harness/cannot-write-case-file", "%v", err)
 		}
-		return judge("static", content, c.Range, o)
+		return judge(whoLabel("static", c.ViaJSON), content, c.Range, o)
 	}
 	return nil
 }
@@ -302,8 +383,11 @@ func classesRange(c RangeCase) []string {
 	n := int64(c.Len)
 	p := parseRange(c.Range)
 	cl := []string{"who-" + c.Who}
-	if c.Who == "body" && c.Slack > 0 {
+	if c.Who == "body" && c.Slack > 0 && !c.ViaJSON {
 		cl = append(cl, "body-slice-with-spare-capacity")
+	}
+	if c.ViaJSON {
+		cl = append(cl, "built-from-json-config")
 	}
 	if c.Range == "" {
 		return append(cl, "shape-no-range")
@@ -340,7 +424,7 @@ func classesRange(c RangeCase) []string {
 	return cl
 }
 
-var rangeRule = "content of 0..64 KiB x Range header drawn from the RFC 7233 grammar (1..4 specs a-b / a- / -n, positions from {0,1,len-2,len-1,len,len+1,2^31,2^50,2^63-1,2^63,2^64,10^30} and uniform, reversed pairs, blanks, other letter case, other units, empty and garbage elements, stray commas, character-level mutations), answered by body.Modifier (content slice with or without spare capacity) or static.Modifier and judged against an independent range resolver; non-trivial = an end >= len, a suffix or open-ended spec, >= 2 specs, or a malformed spec"
+var rangeRule = "content of 0..64 KiB x Range header drawn from the RFC 7233 grammar (1..4 specs a-b / a- / -n, positions from {0,1,len-2,len-1,len,len+1,2^31,2^50,2^63-1,2^63,2^64,10^30} and uniform, reversed pairs, blanks, other letter case, other units, empty and garbage elements, stray commas, character-level mutations), answered by body.Modifier (content slice with or without spare capacity) or static.Modifier, built by their Go constructors or by parse.FromJSON from the documented JSON configuration, and judged against an independent range resolver; non-trivial = an end >= len, a suffix or open-ended spec, >= 2 specs, or a malformed spec"
 
 // ---- generator
 
@@ -493,7 +577,7 @@ var propRange = &kit.Prop[RangeCase]{
 	Run: runRange, Classes: classesRange,
 	NonTrivial: func(c RangeCase) bool { return c.Range != "" && nonTrivialRange(c.Range, int64(c.Len)) },
 	Gates: map[string]float64{
-		"nontrivial": 0.5, "who-body": 0.3, "body-slice-with-spare-capacity": 0.08, "who-static": 0.25, "expect-multipart": 0.1, "expect-single-range": 0.15,
+		"nontrivial": 0.5, "who-body": 0.3, "body-slice-with-spare-capacity": 0.08, "built-from-json-config": 0.1, "who-static": 0.25, "expect-multipart": 0.1, "expect-single-range": 0.15,
 		"clamped": 0.08, "shape-suffix": 0.05, "expect-invalid": 0.08, "shape-inside": 0.05, "expect-unsatisfiable": 0.03,
 	},
 	Gen: func(t *rapid.T) RangeCase {
@@ -507,6 +591,8 @@ var propRange = &kit.Prop[RangeCase]{
 		}
 		if c.Who == "body" && rapid.IntRange(0, 2).Draw(t, "with_slack") == 0 {
 			c.Slack = rapid.SampledFrom([]int{1, 2, 7, 64, 1000}).Draw(t, "slack")
+		} else if rapid.IntRange(0, 2).Draw(t, "via_json") == 2 {
+			c.ViaJSON = true
 		}
 		return c
 	},
@@ -577,7 +663,7 @@ func TestRangeMatrix(t *testing.T) {
 				}
 			}
 			for _, h := range headers {
-				for _, c := range []RangeCase{{Who: "body"}, {Who: "static"}, {Who: "body", Slack: 2}} {
+				for _, c := range []RangeCase{{Who: "body"}, {Who: "static"}, {Who: "body", Slack: 2}, {Who: "body", ViaJSON: true}, {Who: "static", ViaJSON: true}} {
 					c.Len, c.Seed, c.Range = n, uint64(n), h
 					if !yield(c) {
 						return
@@ -595,6 +681,7 @@ func TestRangeMatrix(t *testing.T) {
 type PathCase struct {
 	Target   string `json:"target"`
 	Explicit bool   `json:"explicit,omitempty"` // the modifier carries explicitMap
+	ViaJSON  bool   `json:"via_json,omitempty"` // built by parse.FromJSON
 }
 
 // parseTarget reads the request line the way the proxy does.
@@ -671,11 +758,15 @@ func runPath(c PathCase) kit.Verdict {
 		return nil // not a request the proxy would hand to a modifier
 	}
 	want, shape := designated(ft, req.URL.Path, c.Target, c.Explicit)
-	sig := func(class string) string { return "C20/static/path-" + shape + "/" + class }
+	sig := func(class string) string { return "C20/" + whoLabel("static", c.ViaJSON) + "/path-" + shape + "/" + class }
 	res := proxyutil.NewResponse(200, nil, req)
-	mod := static.NewModifier(ft.root)
+	var explicit map[string]string
 	if c.Explicit {
-		mod.SetExplicitPathMappings(ft.explicit)
+		explicit = ft.explicit
+	}
+	mod, err := newStaticModifier(ft.root, explicit, c.ViaJSON)
+	if err != nil {
+		return kit.Failf(sig("json-config-rejected"), "parse.FromJSON rejects the static.Modifier configuration: %v", err)
 	}
 	o := observe(res, mod.ModifyResponse, 1<<20)
 
@@ -751,6 +842,9 @@ func classesPath(c PathCase) []string {
 	}
 	if c.Explicit {
 		cl = append(cl, "explicit-map")
+	}
+	if c.ViaJSON {
+		cl = append(cl, "built-from-json-config")
 	}
 	if nonTrivialPath(c) {
 		cl = append(cl, "dotted-or-encoded")
@@ -836,7 +930,7 @@ var propPath = &kit.Prop[PathCase]{
 	Run: runPath, NonTrivial: nonTrivialPath, Classes: classesPath,
 	Gates: map[string]float64{"nontrivial": 0.4, "designates-a-file": 0.12, "aims-outside": 0.1, "absolute-form": 0.1, "explicit-map": 0.2},
 	Gen: func(t *rapid.T) PathCase {
-		return PathCase{Target: genTarget(t), Explicit: rapid.IntRange(0, 2).Draw(t, "explicit") == 0}
+		return PathCase{Target: genTarget(t), Explicit: rapid.IntRange(0, 2).Draw(t, "explicit") == 0, ViaJSON: rapid.IntRange(0, 3).Draw(t, "via_json") == 2}
 	},
 }
 
@@ -903,7 +997,7 @@ func TestStaticPathMatrix(t *testing.T) {
 
 // ---------------------------------------------------------------- native fuzzing
 
-const fuzzRule = "native fuzzing over (content length mod 65537 with the quotient choosing the spare capacity of the body slice, Range header bytes as an HTTP parser would deliver them, <= 512 bytes); each input is answered by body.Modifier and static.Modifier and judged like 'range'; non-trivial as in 'range'"
+const fuzzRule = "native fuzzing over (content length mod 65537 with the quotient choosing the spare capacity of the body slice and whether the modifiers are built from their JSON configuration, Range header bytes as an HTTP parser would deliver them, <= 512 bytes); each input is answered by body.Modifier and static.Modifier and judged like 'range'; non-trivial as in 'range'"
 
 func FuzzRange(f *testing.F) {
 	ft := getTree(f)
@@ -921,30 +1015,33 @@ func FuzzRange(f *testing.F) {
 	f.Fuzz(func(t *testing.T, n32 uint32, h string) {
 		n := int(n32 % (maxContent + 1))
 		slack := int(n32/(maxContent+1)) % 4 * 5
+		viaJSON := int(n32/(maxContent+1))/4%2 == 1
 		h = strings.Trim(h, " \t")
 		if len(h) > 512 || !validHeaderValue(h) {
 			return
 		}
 		content := blob[:n:n]
 		var v kit.Verdict
-		v = append(v, judge("body", content, h, runBodyModifier(content, h, slack))...)
+		v = append(v, judge(whoLabel("body", viaJSON), content, h, runBodyModifier(content, h, slack, viaJSON))...)
 		classes := []string{}
-		if slack > 0 {
+		if viaJSON {
+			classes = append(classes, "built-from-json-config")
+		} else if slack > 0 {
 			classes = append(classes, "body-slice-with-spare-capacity")
 		}
 		if staticSizes && allocBand(h, n) {
 			classes = append(classes, "static-skipped-allocation-band")
 		} else {
-			o, err := runStaticModifier(ft, content, h)
+			o, err := runStaticModifier(ft, content, h, viaJSON)
 			if err != nil {
 				t.Fatalf("cannot write the case file: %v", err)
 			}
-			v = append(v, judge("static", content, h, o)...)
+			v = append(v, judge(whoLabel("static", viaJSON), content, h, o)...)
 		}
 		if h != "" {
 			classes = append(classes, "shape-"+parseRange(h).shape(int64(n)))
 		}
-		input := append([]byte(fmt.Sprintf("%d+%d|", n, slack)), h...)
+		input := append([]byte(fmt.Sprintf("%d+%d+%v|", n, slack, viaJSON)), h...)
 		kit.FuzzAccount("fuzz-range", fuzzRule, input, h != "" && nonTrivialRange(h, int64(n)), classes...)
 		if len(v) > 0 {
 			kit.FuzzFail(t, "C20", "fuzz-range", "FuzzRange", v, n32, h)
